@@ -402,3 +402,54 @@ func VHSetSelf() {
 		vCover("setself: algebra with itself, |A| >= 2")
 	}
 }
+
+// VHSetString: String() of either implementation lists every member exactly once and nothing
+// else (concrete members; iteration orders explored as configured).
+func VHSetString() {
+	vMapOrder(false)
+	cands := []int{-3, 7, 12}
+	s := c03new("S")
+	mask := vChoose("members", 8)
+	n := 0
+	for i, x := range cands {
+		if mask&(1<<i) != 0 {
+			s.set.Add(x)
+			n++
+		}
+	}
+	if s.conc && vChoose("promote", 2) == 1 {
+		s.set.Len()
+	}
+	if s.conc && n > 0 && vChoose("removeOne", 2) == 1 {
+		// a removed member must not be printed
+		for i, x := range cands {
+			if mask&(1<<i) != 0 {
+				s.set.Remove(x)
+				mask &^= 1 << i
+				n--
+				break
+			}
+		}
+	}
+	vMapOrder(true)
+	text := s.set.String()
+	vMapOrder(false)
+	got := vParseInts(text)
+	vAssert(len(got) == n, "String lists every member exactly once (count)")
+	for i, x := range cands {
+		c := 0
+		for _, g := range got {
+			if g == x {
+				c++
+			}
+		}
+		want := 0
+		if mask&(1<<i) != 0 {
+			want = 1
+		}
+		vAssert(c == want, "String lists exactly the members")
+	}
+	if n >= 2 {
+		vCover("set string: >= 2 members")
+	}
+}
